@@ -173,6 +173,26 @@ fn examine<L: LayoutTrait + GenericLayoutTrait>(s: &Setup, seed: u64, n_points: 
                 nz_deep[i] = true;
             }
             sum += v;
+            if pi == 0 {
+                // the term weighted by coefficient i reads opening i and no other opening
+                let mut own = oods.clone();
+                own[i] += Felt::ONE;
+                let mut others: Vec<Felt> = oods.iter().map(|o| *o + Felt::ONE).collect();
+                others[i] = oods[i];
+                let v_own = deep::<L>(s, &cols, &own, &e, x, zpt).ok()?;
+                let v_others = deep::<L>(s, &cols, &others, &e, x, zpt).ok()?;
+                rep.evaluations += 2;
+                rep.class(&format!("{}/deep_own_opening", s.layout));
+                if v_own == v || v_others != v {
+                    fail(
+                        rep,
+                        format!("c16:deep_opening_not_own:{}", s.layout),
+                        format!("{}: the DEEP term of coefficient position {} {}", lab, i, if v_own == v { "does not read opening i" } else { "reads another opening" }),
+                        json!({"layout": s.layout, "params": s.label, "part": "deep_own_opening", "i": i}),
+                    );
+                    return None;
+                }
+            }
         }
         if deep::<L>(s, &cols, &oods, &vec![Felt::ONE; m + d], x, zpt).ok()? != sum {
             fail(rep, format!("c16:deep_not_additive:{}", s.layout), format!("{}: DEEP E(sum e_i) != sum E(e_i)", lab), json!({"layout": s.layout, "params": s.label, "part": "deep_additivity"}));
@@ -366,4 +386,4 @@ pub fn replay(ctx: &Ctx, _v: &Value) -> Result<Outcome, String> {
     }
 }
 
-pub const RULE: &str = "per layout (7; honest public input and trace size of a shipped proof; interaction elements, mask values, column values, points, coefficient vectors PRF-generated): composition and DEEP evaluators tested at several random points for (i) linearity E(a*c1+b*c2) = a*E(c1)+b*E(c2) and E(0)=0, (ii) every unit coefficient vector e_i evaluated: non-zero for at least one point (all positions of the six static layouts; dynamic: all positions with all builtins enabled, and NZ(S) = NZ(none) u U_{b in S} NZ({b}) over the empty set, every single builtin, the full set, the honest set and PRF subsets), (iii) additivity E(sum e_i) = sum E(e_i); (iv) on the build's honest proofs stark_commit returns DEEP coefficients [1,a,a^2,...] of length MASK_SIZE+CONSTRAINT_DEGREE. One evaluation = one evaluator call; non-trivial/distinct = (layout, parameter set, coefficient position or law instance)";
+pub const RULE: &str = "per layout (7; honest public input and trace size of a shipped proof; interaction elements, mask values, column values, points, coefficient vectors PRF-generated): composition and DEEP evaluators tested at several random points for (i) linearity E(a*c1+b*c2) = a*E(c1)+b*E(c2) and E(0)=0, (ii) every unit coefficient vector e_i evaluated: non-zero for at least one point (all positions of the six static layouts; dynamic: all positions with all builtins enabled, and NZ(S) = NZ(none) u U_{b in S} NZ({b}) over the empty set, every single builtin, the full set, the honest set and PRF subsets), (iii) additivity E(sum e_i) = sum E(e_i); (iii') under e_i the DEEP value changes when opening i changes and does not change when every other opening changes (each opening weighted by its own coefficient); (iv) on the build's honest proofs stark_commit returns DEEP coefficients [1,a,a^2,...] of length MASK_SIZE+CONSTRAINT_DEGREE. One evaluation = one evaluator call; non-trivial/distinct = (layout, parameter set, coefficient position or law instance)";
